@@ -671,16 +671,22 @@ def selftest_G():
 def run(ctx):
     M()
     quick = ctx.quick
-    wconst = {"Modes": ["w"], "MaxLen": ctx.pick(3, 4), "Bases": [0, 2]}
+    # quick: programs of <= 3 calls, writer created at byte 0 and at byte 2; thorough: <= 4 calls at byte 0 (twice
+    # the states of quick already), and the quick box once more for the writer created at byte 2
+    wconst = {"Modes": ["w"], "MaxLen": ctx.pick(3, 4), "Bases": ctx.pick([0, 2], [0])}
     rconst = {"Modes": ["r"], "MaxLen": ctx.pick(2, 2), "MaxBits": ctx.pick(8, 10), "Pads": [0, 1]}
     jobs = [
-        ("BitIO", cfg_text(CFG_W, MaxLen=wconst["MaxLen"]), {"dump": True}),
-        ("BitIO", cfg_text(CFG_R, MaxLen=rconst["MaxLen"], MaxBits=rconst["MaxBits"]), {"dump": True}),
+        ("BitIO", cfg_text(CFG_W, MaxLen=wconst["MaxLen"], Bases="{%s}" % ", ".join(str(b) for b in wconst["Bases"])), {"dump": True, "timeout": 7200}),
+        ("BitIO", cfg_text(CFG_R, MaxLen=rconst["MaxLen"], MaxBits=rconst["MaxBits"]), {"dump": True, "timeout": 7200}),
     ]
     if not quick:
         jobs.append(("BitIORef", "mc/BitIORef.cfg", {}))
+        jobs.append(("BitIO", cfg_text(CFG_W, MaxLen=3), {"dump": True, "timeout": 7200}))
     results = tlc_parallel(jobs)
     wres, wtot = run_exhaustive(ctx, "writer programs (exhaustive)", results[0], wconst)
+    if not quick:
+        _, wtot_b = run_exhaustive(ctx, "writer programs created at byte 0 and at byte 2 (exhaustive, <= 3 calls)", results[3], {"Modes": ["w"], "MaxLen": 3, "Bases": [0, 2]})
+        wtot = merge([wtot, wtot_b])
     rres, rtot = run_exhaustive(ctx, "reader programs over every file (exhaustive)", results[1], rconst)
     if not quick:
         ctx.add_tlc(results[2], "lemma: closed-form operators = literal current-byte machine (BitIORef)", {"MaxLen": 3})
